@@ -42,6 +42,10 @@ enum Tok {
     D,
     G(usize),
     S(usize),
+    /// keep the top buffer for the call that gets this input (no allocator operation)
+    K,
+    /// take the oldest kept buffer (no allocator operation)
+    T,
 }
 
 #[derive(Default)]
@@ -113,6 +117,17 @@ fn run_script(toks: &[Tok]) {
                 vec.shrink_to(n);
                 std::hint::black_box(vec.as_mut_ptr());
             }
+            Tok::K => {
+                sp -= 1;
+                let vec = stack[sp].take().unwrap();
+                KEPT.with(|q| q.borrow_mut().push_back(vec));
+            }
+            Tok::T => {
+                // popping never allocates; the queue grew in the generator
+                let vec = KEPT.with(|q| q.borrow_mut().pop_front()).expect("kept buffer");
+                stack[sp] = Some(vec);
+                sp += 1;
+            }
         }
     }
     for s in stack {
@@ -134,6 +149,8 @@ fn parse_script(s: &str) -> Vec<Tok> {
                 "d" => Tok::D,
                 "g" => Tok::G(n.parse().expect("g")),
                 "s" => Tok::S(n.parse().expect("s")),
+                "k" => Tok::K,
+                "t" => Tok::T,
                 _ => panic!("bad script token {t}"),
             }
         })
@@ -151,6 +168,9 @@ thread_local! {
     static DROPOUT_ORD: Cell<u64> = const { Cell::new(0) };
     static COUNT_ORD: [Cell<u64>; 4] = const { [Cell::new(0), Cell::new(0), Cell::new(0), Cell::new(0)] };
     static IN_CALL: Cell<bool> = const { Cell::new(false) };
+    /// Buffers the generator script keeps for the call script (FIFO).
+    static KEPT: std::cell::RefCell<std::collections::VecDeque<Vec<u8>>> =
+        const { std::cell::RefCell::new(std::collections::VecDeque::new()) };
     /// Identifier of the input of the call in progress.
     static CUR_IN: Cell<u64> = const { Cell::new(0) };
 }
@@ -162,6 +182,7 @@ fn reset_thread() {
     DROPOUT_ORD.with(|c| c.set(0));
     COUNT_ORD.with(|c| c.iter().for_each(|c| c.set(0)));
     IN_CALL.with(|c| c.set(false));
+    KEPT.with(|q| q.borrow_mut().clear());
 }
 
 fn next(c: &'static std::thread::LocalKey<Cell<u64>>) -> u64 {
@@ -660,8 +681,46 @@ fn run_case(line: &str) -> String {
     out
 }
 
+/// Runs one `#[divan::bench]` function of the real-macro binary `hx-sample-e2e` (next to this
+/// binary) through `Divan::from_args().main()`; returns its per-thread event log and the
+/// allocation rows its table shows: `ok | T0 .. | T1 .. | M alloc,dealloc`.
+fn run_e2e(line: &str) -> String {
+    let mut bench = "";
+    let (mut ss, mut sc, mut th, mut test) = ("1", "1", "1", false);
+    for tok in hxlib::toks(line) {
+        let Some((k, val)) = tok.split_once('=') else { panic!("bad token {tok}") };
+        match k {
+            "bench" => bench = val,
+            "ss" => ss = val,
+            "sc" => sc = val,
+            "th" => th = val,
+            "test" => test = val == "1",
+            _ => panic!("unknown key {k}"),
+        }
+    }
+    let exe = std::env::current_exe().expect("exe").with_file_name("hx-sample-e2e");
+    let out = std::process::Command::new(exe)
+        .arg(format!("hx_sample_e2e::{bench}"))
+        .args(["--exact", if test { "--test" } else { "--bench" }])
+        .args(["--sample-count", sc, "--sample-size", ss, "--threads", th])
+        .args(["--timer", "tsc", "--color", "never"])
+        .env("HX_THREADS", th)
+        .output()
+        .expect("spawn hx-sample-e2e");
+    let stdout = String::from_utf8_lossy(&out.stdout);
+    let Some(log) = stdout.lines().find_map(|l| l.strip_prefix("HXLOG ")) else {
+        return format!("crash status={:?}", out.status.code());
+    };
+    let labels: Vec<&str> = ["grow", "shrink", "alloc", "dealloc"]
+        .into_iter()
+        .filter(|l| stdout.lines().any(|line| line.trim_start().starts_with(&format!("{l}:"))))
+        .collect();
+    format!("{log} | M {}", labels.join(","))
+}
+
 fn dispatch(mode: &str, line: &str) -> String {
     match mode {
+        "e2e" => run_e2e(line),
         "run" | "alloc" | "panic" | "tuned" | "tuned-alloc" => run_case(line),
         _ => panic!("unknown mode {mode}"),
     }
